@@ -240,6 +240,6 @@ def check(run):
     run.rule("R06.5", "Tensor.grad returns the cached view gradient only validated or freshly recomputed", floor=2)
     run.rule("R06.4", "the first contribution stored into var._grad has var.data's memory layout; Tensor.grad replays the view op, "
              "untracked, and validates its cache by base identity", floor=4)
-    r06_1(run)
-    r06_2(run)
-    r06_4(run)
+    run.do(r06_1)
+    run.do(r06_2)
+    run.do(r06_4)
